@@ -1030,6 +1030,40 @@ class _BaseHOFormulaBuilder(ABC, Generic[FormulaEngineT, QuantityT]):
         return self
 
 
+class _OperandNames:
+    """Names under which the operand engines of a composed formula are registered.
+
+    Metric fetchers are shared by name, so that an engine used twice in an expression is
+    fetched only once.  Two *different* engines can carry the same name though (for
+    example the power formulas of two battery pools), and must not share a fetcher.
+    """
+
+    def __init__(self) -> None:
+        """Create an instance."""
+        self._name_of: dict[int, str] = {}
+        self._taken: set[str] = set()
+
+    def get(self, engine: object, name: str) -> str:
+        """Return the name to register the given engine with.
+
+        Args:
+            engine: The operand engine.
+            name: The name of the operand engine.
+
+        Returns:
+            The engine's name, made unique if another engine already uses it.
+        """
+        if (known := self._name_of.get(id(engine))) is not None:
+            return known
+        unique, count = name, 1
+        while unique in self._taken:
+            count += 1
+            unique = f"{name}#{count}"
+        self._taken.add(unique)
+        self._name_of[id(engine)] = unique
+        return unique
+
+
 class HigherOrderFormulaBuilder(
     Generic[QuantityT], _BaseHOFormulaBuilder[FormulaEngine[QuantityT], QuantityT]
 ):
@@ -1049,11 +1083,12 @@ class HigherOrderFormulaBuilder(
             A `FormulaEngine` instance.
         """
         builder = FormulaBuilder(name, self._create_method)
+        names = _OperandNames()
         for typ, value in self._steps:
             if typ == TokenType.COMPONENT_METRIC:
                 assert isinstance(value, FormulaEngine)
                 builder.push_metric(
-                    value._name,  # pylint: disable=protected-access
+                    names.get(value, value._name),  # pylint: disable=protected-access
                     value.new_receiver(),
                     nones_are_zeros=nones_are_zeros,
                 )
@@ -1091,12 +1126,14 @@ class HigherOrderFormulaBuilder3Phase(
             FormulaBuilder(name, self._create_method),
             FormulaBuilder(name, self._create_method),
         ]
+        names = _OperandNames()
         for typ, value in self._steps:
             if typ == TokenType.COMPONENT_METRIC:
                 assert isinstance(value, FormulaEngine3Phase)
+                operand = names.get(value, value._name)  # pylint: disable=protected-access
                 for phase in range(3):
                     builders[phase].push_metric(
-                        f"{value._name}-{phase+1}",  # pylint: disable=protected-access
+                        f"{operand}-{phase+1}",
                         value._streams[  # pylint: disable=protected-access
                             phase
                         ].new_receiver(),
